@@ -15,6 +15,8 @@ func init() {
 		},
 		NotDecided: []string{"'in time order' across streams depends on the storage delivering records in time order (C04)", "count equality with the number of matches is C01"},
 		Rules: func(r *Run) {
+			ruleSetClearedPerRecord(r)
+			ruleValueStrGuarded(r)
 			ruleMO(r, 10, "LabelSet", "groupEntries", "Engine).Eval")
 			ruleLabelSetString(r)
 			ruleGroupEntries(r)
